@@ -235,7 +235,7 @@ class Explorer:
                     if self.purity is not None and self.purity.is_pure(cn, t):
                         continue
                     cb = self.facts.bodies.get(cn)
-                    if cb is not None and depth < INLINE_DEPTH and is_straight_line(cb) and cn not in STAGE_ANCHORS and not any(cn.startswith(o) for o in self.opaque):
+                    if cb is not None and depth < INLINE_DEPTH and is_straight_line(cb) and cn not in STAGE_ANCHORS and cn not in self.ATOM_FUNCS and not any(cn.startswith(o) for o in self.opaque):
                         scan(cb, sorted(cb.reachable_blocks()), depth + 1)
                         continue
                     wipe_all[0] = True
@@ -648,7 +648,7 @@ class Explorer:
                 ev['moved'] = True
                 ev['inlined'] = True     # effects are modelled exactly: no wipe of pointer memory
         # 2. straight-line local callees are inlined
-        if ret is None and self.inline and fr.depth < INLINE_DEPTH and name not in STAGE_ANCHORS and not any(name.startswith(o) for o in self.opaque):
+        if ret is None and self.inline and fr.depth < INLINE_DEPTH and name not in STAGE_ANCHORS and name not in self.ATOM_FUNCS and not any(name.startswith(o) for o in self.opaque):
             cb = self.facts.bodies.get(name)
             if cb is not None and is_straight_line(cb):
                 res = self.inline_call(st, fr, cb, args)
@@ -829,8 +829,8 @@ class Explorer:
         ccb = self.facts.bodies.get(c[2])
         if ccb is None or ccb.loops() or len(ccb.blocks) > 60 or ccb.arg_count != 2:
             return None
-        if c[4] and ccb.locals[1]['ty'].startswith('&'):
-            return None         # environment by reference with captures: not modelled
+        if ccb.locals[1]['ty'].startswith('&'):
+            cval = ('refval', cval)     # the body reads its captures through a reference to the environment
         return kind, opt, cval, ccb, default, name
 
     def deep_inlinable(self, fr, t):
